@@ -43,6 +43,11 @@ class _FIXRepeatingGroupContainer:
 
     __repr__ = __str__
 
+    def __eq__(self, other):
+        if isinstance(other, _FIXRepeatingGroupContainer):
+            return self.groups == other.groups
+        return False
+
 
 class FIXContainer:
     """Generic FIX container.
@@ -348,9 +353,9 @@ class FIXContainer:
         Raises:
             FIXMessageError: group comparison not supported
         """
-        # if our string representation looks the same, the objects are equivalent
+        # same tags with the same values (or repeating groups) in the same order
         if isinstance(other, FIXContainer):
-            return self.__str__() == other.__str__()
+            return list(self.tags.items()) == list(other.tags.items())
         elif isinstance(other, dict):
             ignore_tags = {
                 FTag.BeginString,
@@ -370,6 +375,8 @@ class FIXContainer:
                 return False
 
             for t, v in other.items():
+                if str(t) in ignore_tags:
+                    continue
                 if self.is_group(t):
                     raise FIXMessageError(
                         "fix message __eq__ (dict) supports only simple tags, got group"
